@@ -136,6 +136,11 @@ class Replayer:
         manager = self._env[3]
         manager._transfers.clear()
         await manager.add(t)
+        from aioslsk.user.model import BlockingFlag
+        if self.api == 'mgmt':
+            self._env[0].users.blocked['peer'] = BlockingFlag.UPLOADS
+        else:
+            self._env[0].users.blocked.pop('peer', None)
 
         tsmap = {}
         cancels = [0]
@@ -201,7 +206,12 @@ class Replayer:
             seen = state_obj.VALUE.name
             events.append(dict(ev='call', c=c, op=op, seen=seen, task=as_task, snap=snap()))
             try:
-                if self.api and op in ('abort', 'queue', 'pause') and not as_task:
+                if self.api == 'mgmt' and op == 'abort' and not as_task:
+                    # the management job's way of aborting: manage_shares_changed() for a blocked user
+                    n0 = sum(1 for e in events if e['ev'] == 'notify' and e['new'] == 'ABORTED')
+                    await manager.manage_shares_changed()
+                    val = sum(1 for e in events if e['ev'] == 'notify' and e['new'] == 'ABORTED') > n0
+                elif self.api and op in ('abort', 'queue', 'pause') and not as_task:
                     # TransferManager API: raises InvalidStateTransition on refusal
                     try:
                         await getattr(manager, op)(t)
@@ -213,7 +223,7 @@ class Replayer:
                     if op == 'fail':
                         val = await meth(reason=f'r{c}')
                     elif op == 'abort':
-                        val = await meth(reason=f'A{c}')
+                        val = await meth(reason='Requested' if self.api == 'mgmt' else f'A{c}')
                     else:
                         val = await meth()
             except asyncio.CancelledError:
@@ -390,7 +400,7 @@ def run(chk: Check, args):
     for k, src in scheds.items():
         by_src.setdefault(src, []).append(k)
     keys = []
-    caps = dict(cover2=None, slow3=None, sim3=None) if thorough else dict(cover2=4500, slow3=4500, sim3=800)
+    caps = dict(cover2=None, slow3=None, sim3=None) if thorough else dict(cover2=3800, slow3=3800, sim3=600)
     for src, ks in sorted(by_src.items()):
         ks.sort()
         cap = caps.get(src)
@@ -417,10 +427,17 @@ def run(chk: Check, args):
     traces, metas = [], []
     API_OPS = ('abort', 'queue', 'pause')
     try:
-        for api in (False, True):
+        for api in (False, True, 'mgmt'):
             rp = Replayer(tmp, api)
-            # the API variant differs only when some non-task call is abort/queue/pause
-            ks = [k for k in keys if not api or any(s[0] == 'call' and s[2] in API_OPS and not s[3] for s in k[1])]
+            # the API variant differs only when some non-task call is abort/queue/pause; the management
+            # variant (abort through manage_shares_changed for a blocked user) applies to uploads with
+            # exactly one non-task abort
+            if api == 'mgmt':
+                ks = [k for k in keys if k[0][0] == 'up' and
+                      sum(1 for s in k[1] if s[0] == 'call' and s[2] == 'abort' and not s[3]) == 1 and
+                      not any(s[0] == 'call' and s[2] == 'abort' and s[3] for s in k[1])]
+            else:
+                ks = [k for k in keys if not api or any(s[0] == 'call' and s[2] in API_OPS and not s[3] for s in k[1])]
             for i in range(0, len(ks), 400):
                 part = ks[i:i + 400]
                 for (init, stim), ev in zip(part, rp.run_batch(part)):
